@@ -6,7 +6,7 @@ from ..impl_dwt import IMPL
 
 PROP = 'C19'
 MODULE = 'WaveletsVerif.Properties.C19'
-THEOREMS = ['WV.C19.corr2_outer_eq', 'WV.C19.outerRev_eq']
+THEOREMS = ['WV.C19.corr2_outer_eq', 'WV.C19.outerRev_eq', 'WV.C19.rows_corr_get']
 OPS = ['afb2d_nonsep', 'sfb2d_nonsep', 'afb2d', 'sfb2d']
 MODES4 = [0, 1, 4, 2]
 
